@@ -66,6 +66,36 @@ type item struct {
 	cost   int
 }
 
+var giveUp func(key, what string, ch *Chooser, trace []string)
+
+// GiveUp is called inside an execution's bubble when the execution can be neither finished nor torn down: a
+// goroutine of the code under test is blocked for ever on a native channel operation although everything it
+// could wait for has happened (all calls returned, its context cancelled). The bubble would end in the runtime's
+// "blocked goroutines remain" panic and the worker would die without a verdict. The harness states the violated
+// clause; it is recorded with its schedule, the report is written and the worker ends here (the rest of this
+// shard stays unexplored: exhaustive=false). Replaying the recorded schedule reaches the same point again.
+func GiveUp(key, what string, ch *Chooser, trace []string) {
+	if giveUp == nil {
+		panic("HARNESS: GiveUp outside an exploration: " + what)
+	}
+	giveUp(key, what, ch, trace)
+}
+
+func (x *Explorer) armGiveUp() {
+	giveUp = func(key, what string, ch *Chooser, trace []string) {
+		x.Report.Eval(1)
+		x.Report.Trace(1)
+		x.Report.Violate(x.Scenario+"|"+key, fmt.Sprintf("scenario %s: %s\n  schedule: %s", x.Scenario, what, strings.Join(trace, " ; ")),
+			map[string]any{"scenario": x.Scenario, "choices": ch.Choices})
+		x.Report.NotExhaustive("an execution of " + x.Scenario + " left a goroutine of the code under test blocked for ever; the worker ended after reporting it")
+		if err := x.Report.Write(); err != nil {
+			panic("HARNESS: " + err.Error())
+		}
+		fmt.Printf("GIVE-UP scenario=%s: %s\n", x.Scenario, what)
+		os.Exit(0)
+	}
+}
+
 // Explore runs the DFS for this worker's shard. Returns false if stopped early (deadline / violation cap).
 func (x *Explorer) Explore() bool {
 	if x.AuditN == 0 {
@@ -80,6 +110,7 @@ func (x *Explorer) Explore() bool {
 	}
 	stack := []item{{nil, 0}}
 	level1 := 0
+	x.armGiveUp()
 	for len(stack) > 0 {
 		if ev.WallNow().After(x.Deadline) || x.Report.NumViolations() >= 10 {
 			x.stopped = true
@@ -184,6 +215,7 @@ func LoadReplay() *ReplaySpec {
 
 // ReplayOne re-executes exactly the recorded execution (no exploration) and records its verdict.
 func (x *Explorer) ReplayOne(r *ReplaySpec) {
+	x.armGiveUp()
 	c := NewChooser(r.Choices)
 	res := x.Run(c)
 	if c.Diverge != "" {
